@@ -428,7 +428,7 @@ fn main() {
     let rt = tokio::runtime::Builder::new_current_thread().enable_time().start_paused(true).build().expect("runtime");
     let own_pk = world.epoch.validator(ValidatorIndex::new(OWN)).voting_pubkey.clone();
 
-    let ncases: u64 = if args.thorough { 6000 } else { 1400 };
+    let ncases: u64 = if args.thorough { 15000 } else { 1400 };
     let pool_every: u64 = if args.thorough { 2 } else { 5 };
     let sig_every: u64 = if args.thorough { 3 } else { 10 };
     let max_events = if args.thorough { 200 } else { 140 };
